@@ -290,3 +290,42 @@ def replay_edges(graph: str, edges: list[dict], nproc: int = 16) -> dict:
 		for k, v in r['stats'].items():
 			stats[k] = stats.get(k, 0) + v
 	return {'failures': failures, 'stats': stats, 'edges': len(edges), 'states': len(seen), 'jobs': len(jobs)}
+
+
+def _walk_worker(args) -> dict:
+	"""One random walk of TranpWalk.tla: every operation on the real world, every state compared"""
+	graph, steps = args
+	from harness.tranp_env import enter_scratch
+	root = enter_scratch('verif-fsw-')
+	rp = Replayer(graph, root)
+	history: list = []
+	op = steps[0]['op'] if steps else {'name': '?'}
+	try:
+		for e in steps:
+			op = e['op']
+			obs = rp.apply(op)
+			rp.check(op, obs, e['to'], history + [op])
+			history.append(op)
+			if any(f['kind'] == 'conformance' for f in rp.failures):
+				break  # the real world has left the behaviour of the specification: later comparisons mean nothing
+	except Exception as e:
+		rp.failures.append({'kind': 'conformance', 'clause': f'crash:{type(e).__name__}', 'detail': f'{type(e).__name__}: {str(e)[:300]}', 'op': op['name'], 'history': history + [op]})
+	for f in rp.failures:
+		f['history'] = [_strip(o) for o in f['history']]
+	return {'failures': rp.failures, 'stats': rp.stats, 'steps': len(history)}
+
+
+def replay_walks(graph: str, edges: list[dict], nproc: int = 16) -> dict:
+	"""Random walks emitted by TranpWalk.tla (edges carry walk number and step)"""
+	walks: dict[int, list] = {}
+	for e in edges:
+		walks.setdefault(e['walk'], []).append(e)
+	jobs = [(graph, sorted(es, key=lambda e: e['step'])) for _, es in sorted(walks.items())]
+	with ProcessPoolExecutor(max_workers=nproc) as ex:
+		results = list(ex.map(_walk_worker, jobs))
+	failures = [f for r in results for f in r['failures']]
+	stats: dict[str, int] = {}
+	for r in results:
+		for k, v in r['stats'].items():
+			stats[k] = stats.get(k, 0) + v
+	return {'failures': failures, 'stats': stats, 'edges': len(edges), 'states': len(edges), 'jobs': len(jobs), 'longest': max((r['steps'] for r in results), default=0)}
